@@ -47,6 +47,10 @@ THEOREMS = [
     "types_of_observ_roundtrip", "time_of_first_obs_roundtrip", "epoch_roundtrip_v2", "sat_list_continuation_v2",
     "obs_line_classified_v2", "obs_record_roundtrip_v2",
     "rinex2_file_roundtrip", "rinex2_file_rows", "decimation_file_spec_v2",
+    "header_record_roundtrip", "header_record_roundtrip_marker_number", "header_record_roundtrip_receiver",
+    "header_record_roundtrip_antenna", "header_record_roundtrip_approx_position", "header_record_roundtrip_antenna_delta",
+    "header_record_roundtrip_interval", "header_record_roundtrip_comment", "header_record_roundtrip_time_of_last_obs",
+    "header_records_any_order", "body_comment_line_ignored_v3", "body_comment_line_ignored_v2", "blank_system_id_is_gps_partial",
 ]
 
 REQ = "From Verif Require Import Lib.Dyadic Model.C11_Rinex Model.C11_Check."
